@@ -194,7 +194,7 @@ func init() {
 			}
 		}})
 
-	register(&Rule{ID: "TB-MEDIATYPE", Floor: 3,
+	register(&Rule{ID: "TB-MEDIATYPE", Floor: 1,
 		Doc: "every switch over manifest media types in the handlers accepts exactly MediaTypeImage ∪ MediaTypeIndex; the arm parsed as an image manifest lists exactly the image types and the arm parsed as an index exactly the index types",
 		Run: runMediaType})
 
@@ -267,6 +267,50 @@ func mediaTypeSet(c *core.Ctx, fn string) (map[string]bool, token.Pos) {
 		}
 		return true
 	})
+	if len(set) == 0 {
+		// membership in a package-level set (a map literal that is never changed): `_, ok := set[mt]`, `set[mt]` with
+		// bool values — the set is the keys of the literal (those mapped to true, for a bool-valued map)
+		ast.Inspect(fd.Body, func(n ast.Node) bool {
+			ie, ok := n.(*ast.IndexExpr)
+			if !ok {
+				return true
+			}
+			id, ok := ie.X.(*ast.Ident)
+			if !ok {
+				return true
+			}
+			v, ok := pk.TypesInfo.Uses[id].(*types.Var)
+			if !ok || v.Parent() != pk.Types.Scope() || pkgVarAssigned(pk, v) {
+				return true
+			}
+			mt, isMap := v.Type().Underlying().(*types.Map)
+			cl, isLit := pkgVarInit(pk, v.Name()).(*ast.CompositeLit)
+			if !isMap || !isLit {
+				return true
+			}
+			boolVals := false
+			if b, isB := mt.Elem().Underlying().(*types.Basic); isB && b.Kind() == types.Bool {
+				boolVals = true
+			} else if st, isSt := mt.Elem().Underlying().(*types.Struct); !isSt || st.NumFields() != 0 {
+				return true
+			}
+			for _, el := range cl.Elts {
+				kv, ok := el.(*ast.KeyValueExpr)
+				if !ok {
+					continue
+				}
+				if boolVals {
+					if val := constOf(pk, kv.Value); val == nil || val.Kind() != constant.Bool || !constant.BoolVal(val) {
+						continue
+					}
+				}
+				if s, ok := constString(pk, kv.Key); ok {
+					set[s] = true
+				}
+			}
+			return true
+		})
+	}
 	return set, fd.Pos()
 }
 
